@@ -480,6 +480,23 @@ int sim_read_user(FILE *f, char *buf, size_t max)
 	return (int) do_read(&srcs[id], buf, max, 0);
 }
 
+#define SIM_FD_BASE 1000
+int sim_fileno(FILE *f)
+{
+	int id = sim_src_of_file(f);
+	if (id >= 0)
+		return SIM_FD_BASE + id;
+	return f ? (fileno)(f) : -1;
+}
+long sim_sys_read(int fd, void *buf, size_t n)
+{
+	if (fd >= SIM_FD_BASE && fd < SIM_FD_BASE + nsrc)
+		return do_read(&srcs[fd - SIM_FD_BASE], (char *) buf, n, 1);
+	ev("X read-from-unknown-descriptor fd=%d", fd);
+	errno = EBADF;
+	return -1;
+}
+
 static ssize_t cookie_read(void *c, char *buf, size_t size)
 {
 	source *s = (source *) c;
